@@ -17,11 +17,18 @@ induction over the mutually recursive AST, no size bound:
   Render*Component / RenderBlock` instruction of any chunk is in the collected call table (block
   map).
 * T3 `compile_end_ip_pos`: the operand of every `Iterate` is positive.
+* T5 `compile_meets_optimize_hypotheses`: every compiled chunk satisfies the three hypotheses of the
+  optimiser theorems of Props/C09.lean, so those apply to every program.
+* T4 `compile_deterministic_up_to_kwarg_order`: reordering every kwargs map (the `HashMap` iteration
+  order of `compile_kwargs`) changes neither the outcome class, nor the chunk sizes, nor the tables.
 
 The tie to the real compiler is the stage diff of harness bin c07c (real AST → `drv_c07c` must
 reproduce the real pre-optimisation listing of every chunk and the call tables).
 -/
 import TeraModel.Lemmas.CompilerOpOf
+import TeraModel.Lemmas.CompilerKwOrder
+import TeraModel.Lemmas.CompilerOptHyps
+import TeraModel.Props.C09
 import TeraModel.Props.C07
 namespace Tera.C07Compile
 open Tera Tera.Compiler Tera.WellFormed
@@ -218,6 +225,137 @@ theorem compile_end_ip_pos (t : Template) (c : Compiled) (hc : compileTemplate t
       exact this
     · exact iter_nodes cd.body 0 none
 
+/-! ## T4 -/
+
+/-- **T4** `compile_deterministic_up_to_kwarg_order`.  `compile_kwargs` visits a
+`HashMap<String, Expression>` in an unspecified order; in the model that order is the order of the
+kwargs lists of the AST, and `compileTemplate` is a function of the AST (so for a fixed order the
+result is unique).  For ANY reordering `σ` applied to every kwargs map of the template at every depth
+(`reTemplate σ t`; `σ l` is a permutation of `l`), the outcome does not change except for the order
+of the kwarg segments inside the chunks:
+* the scoping precondition of T1 is unaffected, and the compiler panics for the one order iff it
+  panics for the other;
+* the main chunk and every component chunk have the same number of instructions (every kwarg
+  contributes its `LoadConst` and its value's code wherever it is placed), and the same
+  components are defined;
+* the five call tables have the same keys, the same blocks are defined, and the same block names
+  are recorded as top level.
+T1, T2 and T3 hold for every order (they are stated for all ASTs). -/
+theorem compile_deterministic_up_to_kwarg_order (t : Template)
+    (σ : List (String × Expr) → List (String × Expr)) (hσ : ∀ l, (σ l).Perm l) :
+    templateScoped (reTemplate σ t) = templateScoped t ∧
+    ((∃ c, compileTemplate t = .ok c) ↔ (∃ c', compileTemplate (reTemplate σ t) = .ok c')) ∧
+    ∀ c c', compileTemplate t = .ok c → compileTemplate (reTemplate σ t) = .ok c' →
+      c'.main.length = c.main.length ∧
+      c'.components.map (fun p => (p.1, p.2.length)) = c.components.map (fun p => (p.1, p.2.length)) ∧
+      (∀ n, n ∈ c'.filterCalls ↔ n ∈ c.filterCalls) ∧
+      (∀ n, n ∈ c'.testCalls ↔ n ∈ c.testCalls) ∧
+      (∀ n, n ∈ c'.functionCalls ↔ n ∈ c.functionCalls) ∧
+      (∀ n, n ∈ c'.includeCalls ↔ n ∈ c.includeCalls) ∧
+      (∀ n, n ∈ c'.componentCalls ↔ n ∈ c.componentCalls) ∧
+      (∀ n, n ∈ c'.blocks.map (·.1) ↔ n ∈ c.blocks.map (·.1)) ∧
+      (∀ n, n ∈ c'.blockNames ↔ n ∈ c.blockNames) := by
+  have hall := re_tags_allEvents σ hσ t
+  have hbody := re_tags_bodyEvents σ hσ t
+  have hpanic : firstPanic (allEvents (reTemplate σ t)) = none ↔ firstPanic (allEvents t) = none := by
+    rw [firstPanic_none, firstPanic_none]; simp only [hall]
+  refine ⟨re_templateScoped σ hσ t, ?_, ?_⟩
+  · unfold compileTemplate
+    constructor
+    · rintro ⟨c, hc⟩
+      split at hc
+      · cases hc
+      · rename_i h; rw [hpanic.mpr h]; exact ⟨_, rfl⟩
+    · rintro ⟨c, hc⟩
+      split at hc
+      · cases hc
+      · rename_i h; rw [hpanic.mp h]; exact ⟨_, rfl⟩
+  · intro c c' hc hc'
+    unfold compileTemplate at hc hc'
+    split at hc
+    · cases hc
+    split at hc'
+    · cases hc'
+    cases hc; cases hc'
+    have hlen := (re_len_aux σ hσ).2.1
+    refine ⟨hlen t.nodes 0 none, ?_, ?_, ?_, ?_, ?_, ?_, ?_, ?_⟩
+    · simp only [reTemplate, List.map_map]
+      apply List.map_congr_left
+      intro cd _
+      simp only [Function.comp, hlen cd.body 0 none]
+    · intro n; simp only [mem_filterCalls, hall]
+    · intro n; simp only [mem_testCalls, hall]
+    · intro n; simp only [mem_functionCalls, hall]
+    · intro n; simp only [mem_includeCalls, hall]
+    · intro n; simp only [mem_componentCalls, hall]
+    · intro n; simp only [mem_blockNames, hbody]
+    · intro n; simp only [mem_topBlocks, hbody]
+
+/-! ## T5: compiled chunks meet the hypotheses of the optimiser theorems (C09) -/
+
+/-- **T5** `compile_meets_optimize_hypotheses`.  The theorems of Props/C09.lean about the peephole
+pass (`optimize_no_panic`, `optimize_expand`, `jumps_land_same_code`, `optimize_preserves`) assume of
+their input what "the compiler emits": every jump operand is an instruction index or the
+one-past-the-end index (`TargetsInRange`), there is no fused instruction (`NoFused`), and every
+`LoadName` / `LoadAttr` was added with a span (`PathSpans`).  For EVERY template (no hypothesis on
+the AST) and every chunk the compiler model produces for it, in wire form with any payload
+encoders, the three hold — hence the pass never hits its `index_map[target]` panic on compiled
+code (`Chunk::optimize`, instructions.rs) and `C09.optimize_preserves` applies to it. -/
+theorem compile_meets_optimize_hypotheses (t : Template) (c : Compiled)
+    (hc : compileTemplate t = .ok c) (enc : Enc) :
+    ∀ ch ∈ c.chunks,
+      C09.TargetsInRange (toEntries enc ch) ∧ C09.NoFused (toEntries enc ch) ∧
+      PathVm.PathSpans (toEntries enc ch) ∧
+      ∃ r, Optimize.optimize (toEntries enc ch) = .ok r := by
+  have key : ∀ ns : List Node,
+      C09.TargetsInRange (toEntries enc (nodesCode 0 none ns)) ∧
+      C09.NoFused (toEntries enc (nodesCode 0 none ns)) ∧
+      PathVm.PathSpans (toEntries enc (nodesCode 0 none ns)) ∧
+      ∃ r, Optimize.optimize (toEntries enc (nodesCode 0 none ns)) = .ok r := by
+    intro ns
+    have h1 : C09.TargetsInRange (toEntries enc (nodesCode 0 none ns)) := by
+      intro e he t ht
+      simp only [toEntries, List.mem_map] at he
+      obtain ⟨y, hy, rfl⟩ := he
+      simp only [target_toInstr] at ht
+      rcases targets_nodes ns y hy t ht with h | h
+      · simpa [toEntries] using h.2
+      · cases h
+    refine ⟨h1, ?_, ?_, ⟨_, C09.optimize_no_panic _ h1⟩⟩
+    · intro e he
+      simp only [toEntries, List.mem_map] at he
+      obtain ⟨y, _, rfl⟩ := he
+      exact isFused_toInstr enc y.1
+    · intro e he hk
+      simp only [toEntries, List.mem_map] at he
+      obtain ⟨y, hy, rfl⟩ := he
+      have hsp := pspan_nodes ns 0 none y hy
+      have : y.2 = true := by
+        apply hsp
+        obtain ⟨i, b⟩ := y
+        rcases hk with ⟨n, hn⟩ | ⟨a, ha⟩
+        · left; cases i <;> simp [CInstr.toInstr] at hn ⊢
+        · right; cases i <;> simp [CInstr.toInstr] at ha ⊢
+      simp [this]
+  unfold compileTemplate at hc
+  split at hc
+  · cases hc
+  · cases hc
+    intro ch hch
+    simp only [Compiled.chunks, List.mem_cons, List.mem_append, List.mem_map] at hch
+    rcases hch with rfl | ⟨⟨n, code⟩, hmem, rfl⟩ | ⟨_, ⟨cd, hmem, rfl⟩, rfl⟩
+    · exact key _
+    · -- the chunk of a recorded block is `nodesCode 0 none body`
+      have hb := blockChunks_are_nodes t.nodes
+      simp only [blockDefs, bodyEvents, List.mem_filterMap] at hmem
+      obtain ⟨ev, hev, hsome⟩ := hmem
+      have := hb ev hev
+      cases ev <;> simp at hsome
+      obtain ⟨rfl, rfl⟩ := hsome
+      obtain ⟨body, rfl⟩ := this
+      exact key _
+    · exact key _
+
 /-! ## The hypotheses are satisfiable, and needed (spot checks; the stage diff runs the model on
 every real AST) -/
 
@@ -277,6 +415,20 @@ def exBlockInComponent : ComponentDefinition where
 
 example : templateScoped
     { parent := none, nodes := [], componentDefinitions := [exBlockInComponent] } = false := by
+  decide
+
+/-- T4 is about a real degree of freedom: reversing the kwargs of `{{ f(a=1, b=x) }}` is a
+permutation, and it changes the listing (`LoadConst a; LoadConst 1; LoadConst b; LoadName x`
+becomes `LoadConst b; LoadName x; LoadConst a; LoadConst 1`) but not its length -/
+example : (∀ l : List (String × Expr), l.reverse.Perm l) ∧
+    let ns := [Node.expression (.functionCall "f" [("a", .const (.i64 1)), ("b", .var "x")])]
+    ((nodesCode 0 none (reNodes List.reverse ns)).map fun e =>
+        match e.1 with | .loadName n => n | .loadConst (.str _ s) => String.ofList s | _ => "")
+      = ["b", "x", "a", "", "", "", ""] ∧
+    ((nodesCode 0 none ns).map fun e =>
+        match e.1 with | .loadName n => n | .loadConst (.str _ s) => String.ofList s | _ => "")
+      = ["a", "", "b", "x", "", "", ""] := by
+  refine ⟨fun l => List.reverse_perm l, ?_⟩
   decide
 
 end Tera.C07Compile
